@@ -239,6 +239,19 @@ def check(col: Collector, tier: str):
     check_fill_scope(col, "C03.R9", repo)
     import_obligations(col, "C03.R9", "c10", lambda o: o.rule == "C10.R3" and "value-return" in o.detail,
                        "const or pointer qualifiers that leak into the registered type become the column's type")
+    # the booking statements (TTree and Branch calls) and column declarations reach the rendered class
+    from sa.props._tr import check_emission_pipeline
+    sub_ep = Collector("C03")
+    check_emission_pipeline(sub_ep, "C03.R10", repo)
+    for o in sub_ep.obs:
+        if "book" in o.detail or "class_decl" in o.detail:
+            col.add("C03.R10", o.construct, o.detail, o.ok, o.msg, o.loc)
+    # column and tree names reach Branch()/TTree() and the descriptor as the same characters
+    from sa.props._tr import check_escaper_ranges
+    check_escaper_ranges(col, "C03.R10", repo)
+    # the backend's default method types (bool, float, int returns) must survive every reset of a re-used executor
+    import_obligations(col, "C03.R10", "c07", lambda o: o.rule == "C07.R3b",
+                       "a default-typed method that lost its type after a reset is booked as a double column")
     # ------------------------------------------------------------ R8 conditional is double
     col.floor("C03.R8", 2)
     vi = m.get("visit_IfExp")
